@@ -6,7 +6,7 @@
    scancode layer is independent of the set", C03's "end-to-end from scancodes").
    The five JIS keys are excepted for Set 1 (open known finding F1). *)
 From Coq Require Import NArith Bool List String.
-From PK Require Import Base.Outcome Base.Finite Gen.All Impl Enc Seq Spec.ScanRef Spec.ScanAuto Spec.Event Syn.Lay Check.Lay.
+From PK Require Import Base.Outcome Base.Finite Gen.All Impl Enc Seq Spec.ScanRef Spec.ScanAuto Spec.Mods Syn.Lay Check.Lay.
 Import ListNotations.
 Local Open Scope N_scope.
 
